@@ -45,6 +45,7 @@ def known(ctx, key):
 
 
 XDRIVER, X_MODEL_FIXED = None, True
+POOLS = None
 
 
 def parse_flow(a):
@@ -121,6 +122,8 @@ def run(ctx):
 
     tables = gen.tables_json()
     pools = c17lib.Pools(tables)
+    global POOLS
+    POOLS = pools
     vocab = c18lib.Vocab(tables)
     tfile = os.path.join(common.BUILD, "c18_tables-%s.txt" % common.repo_hash())
     common.write_if_changed(tfile, vocab.tables_file())
@@ -301,6 +304,13 @@ def batch_plan(l, h):
                 return None
             if h["mode"] == "X" and h["xmlgen"] % 10 == 1:
                 return None
+            if h["mode"] == "W" and POOLS is not None:
+                # WBXML output looks at the text node's PARENT element for one thing: the content of a SyncML MetInf <Type>
+                # (page 1, token 0x13) is rewritten '+xml' -> '+wbxml' (current_text_parent = node->parent); a detached
+                # text node has no parent, so flow mode and the tree legitimately differ there: not comparable
+                row = POOLS.langs[h["lang"]]["tags"][int(specs[i].split(".")[0][1:])]
+                if h["lang"] in (2001, 2101, 2201) and row[1] == 1 and row[2] == 0x13:
+                    return None
             head = []
             for t in specs[i].split("."):
                 if t == "(":
